@@ -52,7 +52,8 @@ Record cfg := {
   fix_implicit : bool;(* the two implicit exclude patterns are escaped and anchored              *)
   fix_shared : bool;  (* ByKey keeps its skipped keys per call (thread pool) and clear() is gated   *)
   fix_own : bool;     (* only the job's OWN state point / document (top level) are left out (2602a0e) *)
-  fix_funny : bool    (* a file on one side and a directory on the other raises FileSyncConflict (4239e5d) *)
+  fix_funny : bool;   (* a file on one side and a directory on the other raises FileSyncConflict (4239e5d) *)
+  fix_keep : bool     (* a cloned job keeps its two own files at its top level only (618e7cc)              *)
 }.
 
 (* /repo at the current head: F3 (9f55003), F5 (0ec1e88), F4 (6b3ddc7), F16 + root (7de64dd), dryinit
@@ -63,11 +64,11 @@ Record cfg := {
 Definition cfg_current : cfg :=
   {| fix_F3 := true; fix_F4 := true; fix_F5 := true; fix_F16 := true; fix_root := true;
      fix_excl := true; fix_dryinit := true; fix_ignore := true; fix_implicit := true;
-     fix_shared := true; fix_own := true; fix_funny := true |}.
+     fix_shared := true; fix_own := true; fix_funny := true; fix_keep := true |}.
 Definition cfg_fixed : cfg :=
   {| fix_F3 := true; fix_F4 := true; fix_F5 := true; fix_F16 := true; fix_root := true;
      fix_excl := true; fix_dryinit := true; fix_ignore := true; fix_implicit := true;
-     fix_shared := true; fix_own := true; fix_funny := true |}.
+     fix_shared := true; fix_own := true; fix_funny := true; fix_keep := true |}.
 
 (* ------------------------------------------------------------------ options *)
 Inductive fstrategy :=
@@ -296,12 +297,25 @@ Section Model.
                         end) es)
     end.
 
-  Definition copy_tree (ex : str -> bool) (dry : bool) (n : str) (src : node) (d : dir) : wstate :=
-    let src := if fix_excl cf then prune ex src else src in
+  (* the ignore function of a clone (618e7cc): [ex_top] decides directly in the job directory, [ex] below it *)
+  Definition prune_top (ex_top ex : str -> bool) (n : node) : node :=
+    match n with
+    | File _ _ => n
+    | Dir es => Dir ((fix go (l : list (str * node)) : list (str * node) :=
+                        match l with
+                        | [] => []
+                        | (k, x) :: l' => if ex_top k then go l' else (k, prune ex x) :: go l'
+                        end) es)
+    end.
+
+  Definition copy_tree_gen (pr : node -> node) (dry : bool) (n : str) (src : node) (d : dir) : wstate :=
+    let src := if fix_excl cf then pr src else src in
     if dry then
       if fix_F4 cf then (d, None)
       else let '(s, r) := skel_node src in (d ++ [(n, s)], if r then Some ETypeError else None)
     else (d ++ [(n, touch src)], None).
+
+  Definition copy_tree (ex : str -> bool) := copy_tree_gen (prune ex).
 
   (* ---------------------------------------------------------------- FileSync strategies *)
   Definition verdict (s : fstrategy) (rel : str) (m_src m_dst : Z) : bool :=
@@ -564,6 +578,11 @@ Section Model.
 
   Definition proj_deep (o : opts) : bool := if fix_F5 cf then o_deep o else false.   (* F5 *)
 
+  Definition own_name (k : str) : bool := str_eqb k FN_SP || str_eqb k FN_DOC.
+  Definition clone_prune (o : opts) : node -> node :=
+    if fix_keep cf then prune_top (fun k => o_exclude o k && negb (own_name k)) (o_exclude o)
+    else prune (fun k => o_exclude o k && negb (own_name k)).
+
   (* _clone_or_sync *)
   Definition clone_or_sync (o : opts) (kn : str * node) (ws : dir) : wstate :=
     let '(id, n) := kn in
@@ -571,8 +590,9 @@ Section Model.
     | Dir sdir =>
         match alookup id ws with
         | None =>
-            (* Project.clone: (with fix_excl) only the user patterns apply, never to the state point / document *)
-            copy_tree (fun k => o_exclude o k && negb (str_eqb k FN_SP || str_eqb k FN_DOC)) (o_dry_run o) id n ws
+            (* Project.clone: (with fix_excl) the user patterns apply; the state point and the document are
+               protected — since 618e7cc directly in the job directory only, before that at every depth *)
+            copy_tree_gen (clone_prune o) (o_dry_run o) id n ws
         | Some (Dir ddir) =>
             let '(d', e) := sync_jobs_m o (proj_deep o) true (Some sdir) (Some ddir) JNull in
             (match d' with Some x => aset id (Dir x) ws | None => ws end, e)
